@@ -567,6 +567,81 @@ fn scripted(seed: u64, rep: &Report) -> Result<(), String> {
     Ok(())
 }
 
+/// Two shards: bans in one shard must not influence the other (unban-all is per shard).
+fn scripted_multishard(seed: u64, rep: &Report) -> Result<(), String> {
+    use crate::pgcat::{ShardCfg, UserCfg};
+    let mut rng = Rng::new(seed);
+    let mut cell = Cell::new();
+    let mut pool = PoolCfg::new("db");
+    let nshards = 2;
+    let nrep = rng.range(2, 3) as usize;
+    let mut reps: Vec<Vec<usize>> = vec![];
+    for s in 0..nshards {
+        let mut servers = vec![];
+        let p = cell.add_mock(&format!("db.s{}.primary.0", s));
+        servers.push(cell.server(p, "primary"));
+        let mut rs = vec![];
+        for k in 0..nrep {
+            let m = cell.add_mock(&format!("db.s{}.replica.{}", s, k + 1));
+            servers.push(cell.server(m, "replica"));
+            rs.push(m);
+        }
+        reps.push(rs);
+        pool.shards.push(ShardCfg { id: s.to_string(), database: format!("d{}", s), servers, mirrors: vec![] });
+    }
+    pool.users.push(UserCfg::new(USER, PASS, 3));
+    let mut cfg = Cfg::new();
+    cfg.pools.push(pool);
+    cfg.gset("ban_time", "60");
+    cell.start_pgcat(&cfg, &StartOpts::default()).map_err(|e| format!("start: {:?}", e))?;
+    let mut adm = cell.pg().admin().map_err(|e| format!("admin: {}", e))?;
+    // ban (nrep - 1) replicas in shard 0 and 1 replica in shard 1: in total as many bans as one
+    // shard has replicas, but no shard has all of its replicas banned
+    let mut banned: Vec<usize> = vec![];
+    for k in 0..nrep - 1 {
+        banned.push(reps[0][k]);
+    }
+    banned.push(reps[1][0]);
+    for m in &banned {
+        admin_query(&mut adm, &format!("BAN {} 60", cell.mocks[*m].host()))?;
+    }
+    let bans_before = admin_rows(&mut adm, "SHOW BANS")?.len();
+    let mut c = Conn::connect(&cell.addr(), &StartupOpts::new(USER, "db", PASS).app("ms")).map_err(|e| e.to_string())?;
+    c.query("SET SERVER ROLE TO 'replica'", 5000).map_err(|e| format!("{:?}", e.1))?;
+    let mut n = 0;
+    for shard in 0..nshards {
+        c.query(&format!("SET SHARD TO '{}'", shard), 5000).map_err(|e| format!("{:?}", e.1))?;
+        for _ in 0..40 {
+            n += 1;
+            let qid = format!("ms.q{}", n);
+            let r = c.query(&format!("SELECT 1 {}", tag("ms", &qid, "rows=1")), 10_000).map_err(|(m, e)| format!("{:?} {}", e, summarize(&m)))?;
+            rep.count("multishard_statements", 1);
+            if let Some((_, msg)) = first_error(&r) {
+                rep.violation("C07|transaction_refused_although_unbanned_replica_exists|multishard", &format!("shard {}: {}", shard, msg), json!({"seed": seed}));
+                continue;
+            }
+            let served = row_idents(&r).first().map(|x| x.0.clone()).unwrap_or_default();
+            if banned.iter().any(|m| cell.mocks[*m].label == served) {
+                rep.violation(
+                    "C07|admin_banned_replica_received_client_statement|multishard",
+                    &format!("{} is banned (bans are spread over {} shards, no shard has all replicas banned) but served {} of shard {}", served, nshards, qid, shard),
+                    json!({"seed": seed, "replicas_per_shard": nrep}),
+                );
+            }
+            if !served.starts_with(&format!("db.s{}.replica", shard)) {
+                rep.violation("C07|served_by_wrong_shard_or_role|multishard", &format!("{} (shard {}, role replica) was served by {}", qid, shard, served), json!({"seed": seed}));
+            }
+        }
+    }
+    let bans_after = admin_rows(&mut adm, "SHOW BANS")?.len();
+    if bans_after != bans_before {
+        rep.violation("C07|bans_lifted_although_no_shard_had_all_replicas_banned|multishard", &format!("SHOW BANS went from {} to {} rows without UNBAN or expiry", bans_before, bans_after), json!({"seed": seed}));
+    } else {
+        rep.count("multishard_ban_sets_intact", 1);
+    }
+    Ok(())
+}
+
 pub fn run(tier: &str) -> i32 {
     let rep = Report::new(
         "C07",
@@ -584,6 +659,8 @@ pub fn run(tier: &str) -> i32 {
         rep.eval(1);
         let r = if i % 6 == 5 {
             scripted(seeds[i], &rep)
+        } else if i % 6 == 4 {
+            scripted_multishard(seeds[i], &rep)
         } else {
             random_faults(seeds[i], thorough, &rep)
         };
